@@ -293,5 +293,5 @@ def main(tier, seed):
                        "deleted positions form a set (duplicate rows count once)"]
     rep.absorb(harness.run_configs("checks.C10", "worker", cf))
     rep.witness_ok = rep.stats["returned"] > 0 and rep.stats["raised"] > 0
-    rep.validated += validate_model()
+    rep.run_validation(validate_model)
     return harness.finish(rep)
